@@ -145,7 +145,7 @@ Definition match_at (pre chunk : list N) (off : N) : Prop :=
 Inductive parses : list N -> list token -> list N -> Prop :=
 | P_nil pre : parses pre [] []
 | P_lit pre b toks rest :
-    b < 256 -> parses (pre ++ [b]) toks rest -> parses pre (Lit b :: toks) (b :: rest)
+    parses (pre ++ [b]) toks rest -> parses pre (Lit b :: toks) (b :: rest)
 | P_mat pre off len toks chunk rest :
     0 < off -> off <= nlen pre -> off < W32 -> len < W32 -> nlen chunk = len ->
     nlen pre + len <= MAX_DECOMPRESSED_SIZE ->
